@@ -78,6 +78,24 @@ pub fn c12(args: &Args) {
             out.emit(row(op, b));
         }
     }
+    // call SEQUENCES with many repeats over a small value set (state kept between calls: a one-entry memo, a "nothing to do"
+    // shortcut): inputs and outputs recorded in call order
+    {
+        let vals: [i16; 8] = [0, 0, 1, 5, 6144, 6145, 12288, 7];
+        for op in ["inv", "neg", "balanced", "add", "mul", "sub"] {
+            let xs: Vec<i16> = (0..240).map(|_| vals[rng.gen_range(0..vals.len())]).collect();
+            let ys: Vec<i16> = (0..240).map(|_| vals[rng.gen_range(0..vals.len())]).collect();
+            let res: Vec<Value> = xs.iter().zip(ys.iter()).map(|(&x, &y)| guarded_i16(|| match op {
+                "inv" => verif::felt_inverse_or_zero(x),
+                "neg" => verif::felt_neg(x),
+                "balanced" => verif::felt_balanced(x),
+                "add" => verif::felt_add(x, y),
+                "mul" => verif::felt_mul(x, y),
+                _ => verif::felt_sub(x, y),
+            })).collect();
+            out.emit(json!({"ev":"opseq","op":op,"xs":i16s_json(&xs),"ys":i16s_json(&ys),"res":res,"tag":"opseq"}));
+        }
+    }
     // batch inversion: zeros at every position class
     for &len in &[1usize, 2, 3, 8, 64] {
         for zpos in 0..=len.min(4) {
@@ -153,6 +171,22 @@ pub fn c11(args: &Args) {
             out.emit(json!({"ev":"roundtrip","n":n,"a":i16s_json(&a),"out":vec_or_panic(|| verif::ntt_ifft(&verif::ntt_fft(&a))),"tag":"roundtrip"}));
             out.emit(json!({"ev":"mul","n":n,"a":i16s_json(&a),"b":i16s_json(&b),
                             "out":vec_or_panic(|| verif::ntt_ifft(&verif::ntt_hadamard_mul(&verif::ntt_fft(&a), &verif::ntt_fft(&b)))),"tag":"mul"}));
+        }
+    }
+    // prefix-related inputs in consecutive calls: v[..n] for growing and then shrinking n (a memo keyed by content without the
+    // length, or a buffer not truncated, answers the previous call's result)
+    {
+        let v: Vec<i16> = (0..1024).map(|i| if i == 0 { 1 } else { rng.gen_range(0..Q as i16) }).collect();
+        let ones = vec![1i16; 1024];
+        for src in [&v, &ones] {
+            let mut order: Vec<usize> = (0..=10).collect();
+            order.extend((0..=9).rev());
+            for w in order {
+                let n = 1usize << w;
+                let a = src[..n].to_vec();
+                out.emit(json!({"ev":"fft","n":n,"a":i16s_json(&a),"out":vec_or_panic(|| verif::ntt_fft(&a)),"tag":"fft-prefix"}));
+                out.emit(json!({"ev":"roundtrip","n":n,"a":i16s_json(&a),"out":vec_or_panic(|| verif::ntt_ifft(&verif::ntt_fft(&a))),"tag":"roundtrip-prefix"}));
+            }
         }
     }
     // the same kinds of calls once more with the lengths in DESCENDING and then in an interleaved order (a table or scratch
